@@ -372,6 +372,18 @@ class Check:
         except HarnessError:
             raise
         self.proof = build_proofs(self.prop, timeout=timeout)
+        if self.tier == "thorough" and self.proof["ok"] and os.environ.get("VERIF_COQCHK", "1") != "0":
+            # independent re-check of the compiled theorems file and everything it depends on, with the axiom summary
+            t0 = time.time()
+            rc, out = sh("timeout 2400 coqchk -silent -o -Q . DJC DJC.Props.%s" % self.prop, cwd=COQ)
+            m = re.search(r"\* Axioms:(.*?)\n\s*\n\* Constants/Inductives relying on type-in-type:(.*?)\n\s*\n\* Constants/Inductives relying on unsafe \(co\)fixpoints:(.*?)\n\s*\n\* Inductives whose positivity is assumed:(.*?)(?:\n\s*\n|$)", out, flags=re.S)
+            summ = [x.strip() for x in m.groups()] if m else None
+            self.proof["coqchk"] = {"rc": rc, "axioms": summ[0] if summ else None, "type_in_type": summ[1] if summ else None,
+                                    "unsafe_fixpoints": summ[2] if summ else None, "assumed_positivity": summ[3] if summ else None,
+                                    "wall_s": round(time.time() - t0, 1)}
+            if rc != 0 or summ is None or any(x != "<none>" for x in summ[1:]):
+                self.proof["ok"] = False
+                self.proof["failed_at"] = "coqchk: rc=%d %s" % (rc, out[-500:])
         return self.proof
 
     def fail(self, trigger, what, replay):
@@ -445,7 +457,7 @@ class Check:
             "coverage": {
                 "obligations": pr["obligations"], "discharged": pr["discharged"],
                 "checker_cmd": pr["checker_cmd"] or "n/a", "trusted_base": trusted,
-                "theorems": pr["theorems"], "print_assumptions": pr["assumptions"],
+                "theorems": pr["theorems"], "print_assumptions": pr["assumptions"], "coqchk": pr.get("coqchk"),
                 "evaluations": self.evaluations, "distinct_nontrivial": len(self.nontrivial),
                 "rule": rule, "samples": self.samples[:6], "input_distribution": dict(self.dist),
                 "model_vs_impl_disagreements": len(self.disagreements),
